@@ -2,6 +2,8 @@
 //!
 //! Learn more about Humphrey [here](https://humphrey.whenderson.dev/core/index.html).
 
+#![allow(unexpected_cfgs)]
+
 #![warn(missing_docs)]
 
 #[cfg(not(feature = "tokio"))]
